@@ -176,6 +176,74 @@ func runChildrenRace(c deliverCase) (any, error) {
 	return obs, nil
 }
 
+// runChildBusy: a parent is poisoned while its child is inside a handler that takes HandlerMicros; the
+// child's Stopped must wait for that handler (one Receive call at a time, whoever delivers), come exactly
+// once, and the parent's Stopped and the stop context must come after it, however long it takes.
+func runChildBusy(c deliverCase) (any, error) {
+	e, err := actor.NewEngine(actor.NewEngineConfig())
+	if err != nil {
+		return nil, err
+	}
+	var inflight, anomaly, childStopped, childStoppedDone int32
+	var mu sync.Mutex
+	overlap := false
+	entered := make(chan struct{})
+	kid := make(chan *actor.PID, 1)
+	child := func(ctx *actor.Context) {
+		if n := atomic.AddInt32(&inflight, 1); n > 1 {
+			mu.Lock()
+			overlap = true
+			mu.Unlock()
+		}
+		defer atomic.AddInt32(&inflight, -1)
+		switch ctx.Message().(type) {
+		case dmsg:
+			close(entered)
+			time.Sleep(time.Duration(c.HandlerMicros) * time.Microsecond)
+		case actor.Stopped:
+			atomic.AddInt32(&childStopped, 1)
+			time.Sleep(200 * time.Microsecond)
+			atomic.AddInt32(&childStoppedDone, 1)
+		}
+	}
+	parent := e.SpawnFunc(func(ctx *actor.Context) {
+		switch ctx.Message().(type) {
+		case actor.Started:
+			kid <- ctx.SpawnChildFunc(child, "k", actor.WithID("c"))
+		case actor.Stopped:
+			if atomic.LoadInt32(&childStoppedDone) != 1 {
+				atomic.AddInt32(&anomaly, 1) // the parent got Stopped before its child was through
+			}
+		}
+	}, "parent", actor.WithID("p"))
+	obs := deliverObs{Got: [][]int{}}
+	k := <-kid
+	e.Send(k, dmsg{0, 1})
+	select {
+	case <-entered:
+	case <-time.After(30 * time.Second):
+		obs.Hang = true
+		return obs, nil
+	}
+	select {
+	case <-e.Poison(parent).Done():
+		if atomic.LoadInt32(&childStoppedDone) != 1 {
+			atomic.AddInt32(&anomaly, 1)
+		}
+	case <-time.After(30*time.Second + time.Duration(c.HandlerMicros)*time.Microsecond):
+		obs.Hang = true
+	}
+	time.Sleep(5 * time.Millisecond)
+	if atomic.LoadInt32(&childStopped) != 1 {
+		atomic.AddInt32(&anomaly, 1)
+	}
+	mu.Lock()
+	obs.Overlap = overlap
+	mu.Unlock()
+	obs.Anomalies = int(atomic.LoadInt32(&anomaly))
+	return obs, nil
+}
+
 // stopRaceActor: one value per incarnation (the Producer runs again after a crash).
 type stopRaceActor struct {
 	w       *stopRaceWorld
@@ -321,6 +389,9 @@ func runDeliver(raw json.RawMessage) (any, error) {
 	}
 	if c.Mode == "stoprace" {
 		return runStopRace(c)
+	}
+	if c.Mode == "childbusy" {
+		return runChildBusy(c)
 	}
 	e, err := actor.NewEngine(actor.NewEngineConfig())
 	if err != nil {
